@@ -1,4 +1,4 @@
-CONSTANTS LensChoices <- Choices9  MaxLenChoices = {9}  ChunkMax = 40  Junk = 1
+CONSTANTS LensChoices <- Choices9  MaxLenChoices = {9}  ChunkMax = 40  JunkChoices = {1}  MaxConns = 2
 SPECIFICATION Spec
 INVARIANTS TypeOK Aligned OnlyLegalOut ClosedOnlyOnError NoPrematureWait
 PROPERTIES AllDelivered
